@@ -91,7 +91,7 @@ func (x *c03ctx) checkDestCaps(d ng.Dest) {
 }
 
 func runC03(cfg *vc.Config, rep *vc.Report) {
-	cfg.Cases(40000, 300000, func(i int, r *vc.Rand) {
+	cfg.Cases(40000, 3000000, func(i int, r *vc.Rand) {
 		c := ng.Generate(r, ng.SingleCfg())
 		text := c.Prog.String()
 		rep.Current(map[string]any{"index": i, "script": text, "vars": c.World.Vars})
